@@ -464,31 +464,39 @@ def sjisAt (c : Codec) (b : Bytes) (pos : Nat) : Res Str :=
   | some s => .ok (c.dec s)
   | none => .err .Unterminated
 
+/-- One pointer-table entry of `from_bytes` (`:271-281`), after the entry has been read. -/
+def parsePointerAt (c : Codec) (bytes : Bytes) (dataSize : Nat) (a : BinArchive) (ptrAddr : Nat) :
+    Res BinArchive :=
+  match readU32 a ptrAddr with
+  | .ok v =>
+    if v > dataSize then
+      match sjisAt c bytes (v + 0x20) with
+      | .ok s => writeString a ptrAddr (some s)
+      | .err er => .err er
+      | .panic => .panic
+    else writePointer a ptrAddr (some v)
+  | .err er => .err er
+  | .panic => .panic
+
 /-- One pointer-table entry of `from_bytes`. -/
 def parsePointer (c : Codec) (e : Endian) (bytes : Bytes) (dataSize : Nat)
     (a : BinArchive) (pos : Nat) : Res BinArchive :=
   match u32At e bytes pos with
   | none => .err .Eof
-  | some ptrAddr =>
-    match readU32 a ptrAddr with
-    | .ok v =>
-      if v > dataSize then
-        match sjisAt c bytes (v + 0x20) with
-        | .ok s => writeString a ptrAddr (some s)
-        | .err er => .err er
-        | .panic => .panic
-      else writePointer a ptrAddr (some v)
-    | .err er => .err er
-    | .panic => .panic
+  | some ptrAddr => parsePointerAt c bytes dataSize a ptrAddr
+
+/-- One label-table entry of `from_bytes` (`:285-292`), after the entry has been read. -/
+def parseLabelAt (c : Codec) (bytes : Bytes) (textStart : Nat) (a : BinArchive)
+    (address offset : Nat) : Res BinArchive :=
+  match sjisAt c bytes (textStart + offset + 0x20) with
+  | .ok s => writeLabel a address s
+  | .err er => .err er
+  | .panic => .panic
 
 def parseLabel (c : Codec) (e : Endian) (bytes : Bytes) (textStart : Nat)
     (a : BinArchive) (pos : Nat) : Res BinArchive :=
   match u32At e bytes pos, u32At e bytes (pos + 4) with
-  | some address, some offset =>
-    match sjisAt c bytes (textStart + offset + 0x20) with
-    | .ok s => writeLabel a address s
-    | .err er => .err er
-    | .panic => .panic
+  | some address, some offset => parseLabelAt c bytes textStart a address offset
   | _, _ => .err .Eof
 
 /-- `from_bytes` (after fix D6: the header sum is computed without 32-bit overflow). -/
